@@ -450,7 +450,7 @@ def replay_spec(pid, ctx, ob, q, solver, a):
                 out = p.stdout + p.stderr
             except subprocess.TimeoutExpired:
                 out = "timeout"
-            lines += [("release: " if prof else "dev: ") + l for l in out.split("\n") if l.startswith("SPEC-REPLAY")]
+            lines += [("release: " if prof else "dev: ") + l for l in re.findall(r"SPEC-REPLAY .*", out)]
             if "test result: ok" not in out and "test result: FAILED" not in out:
                 lines.append(("release: " if prof else "dev: ") + "NATIVE RUN DID NOT COMPLETE: " + out[-300:].replace("\n", " "))
         shutil.rmtree(tdir, ignore_errors=True)
@@ -480,7 +480,7 @@ def native_replay(ob, model):
             out = p.stdout + p.stderr
         except subprocess.TimeoutExpired:
             out = "timeout"
-        lines = [l for l in out.split("\n") if l.startswith("C12-REPLAY")]
+        lines = re.findall(r"C12-REPLAY .*", out)
         outs.append(("release" if prof else "dev") + " profile:\n" + "\n".join(l for l in lines if "PANIC" in l or "MEMBER" in l))
         for l in lines:
             mm = re.match(r"^C12-REPLAY MEMBER name=(.*?) \| positional=(\w+) has_long=(\w+) has_short=(\w+) takes_value=(\w+) width=(\d+)$", l)
